@@ -430,6 +430,10 @@ bool Exec<Cfg>::run_real(Op const& op) {
 		if constexpr(Cfg::serialization) handled = ser_load(op);
 		else handled = false;
 		break;
+	case O_MSG_PACK: case O_MSG_XFER:
+		if constexpr(Cfg::mpi) handled = mpi_op(op);
+		else handled = false;
+		break;
 	default: return false;
 	}
 	return handled;
